@@ -273,3 +273,23 @@ class ocv_T1:
         ab, ba, bb, b0, pa, pb = result
         return {'difference of potentials': eq(ab, pa - pb), 'antisymmetric': eq(ba, -ab), 'same node': eq(bb, 0), 'to reference': eq(b0, pb),
                 'hand value': eq(pb * (Z1 + Z2), (V * Z2 + I * Z1 * Z2))}
+
+
+# T6: two ideal voltage sources and two ideal current sources listed in NON-alphabetical order, one voltage source with its
+#     first terminal on the reference node
+topology('T6',
+         lambda g: dict(net=Network([Branch('0', 'a', elm.voltage_source('Vs2', g.complex('V2'))),
+                                     Branch('b', 'a', elm.voltage_source('Vs1', g.complex('V1'))),
+                                     Branch('b', '0', elm.impedance('Z1', g.complex('Z1'))),
+                                     Branch('b', '0', elm.current_source('Ib', g.complex('Ib'))),
+                                     Branch('0', 'b', elm.current_source('Ia', g.complex('Ia')))], '0')),
+         lambda net: net['Z1'].element.Z != 0 and net['Ia'].element.I != 0 and net['Ib'].element.I != 0,
+         props=('C01', 'C03', 'C05'))
+
+# T7: lossy current source and lossy voltage source with BOTH terminals on non-reference nodes
+topology('T7',
+         lambda g: dict(net=Network([Branch('1', '0', elm.resistor('R1', g.pos('R1'))),
+                                     Branch('2', '0', elm.resistor('R2', g.pos('R2'))),
+                                     Branch('1', '2', elm.current_source('Iq', g.complex('I'), g.complex('Yq'))),
+                                     Branch('2', '1', elm.voltage_source('Vq', g.complex('V'), g.complex('Zq')))], '0')),
+         lambda net: net['Iq'].element.I != 0 and net['Iq'].element.Y != 0 and net['Vq'].element.V != 0 and net['Vq'].element.Z != 0)
